@@ -53,6 +53,9 @@ func UnmarshalCursor[Options any](v string, modifiers ...func(query *InitialPagi
 	if err := json.Unmarshal(res, &q); err != nil {
 		return nil, err
 	}
+	if q == nil { // the cursor decodes to the json value null
+		return nil, NewErrInvalidQuery("invalid cursor")
+	}
 
 	var root *InitialPaginatedQuery[Options]
 	if x.Offset != nil { // Offset defined, this is an offset cursor
